@@ -490,7 +490,7 @@ class MoveGlobal:
 
         # Include comment lines before the definition
         start_line = lines.get_line_number(start)
-        while start_line > 1 and lines.get_line(start_line - 1).startswith("#"):
+        while start_line > 1 and self._is_comment_of_definition(lines, start_line - 1):
             start_line -= 1
         start = lines.get_line_start(start_line)
 
@@ -498,6 +498,16 @@ class MoveGlobal:
             end_line += 1
         end = min(lines.get_line_end(end_line) + 1, len(pymodule.source_code))
         return start, end
+
+    def _is_comment_of_definition(self, lines, lineno):
+        line = lines.get_line(lineno)
+        if not line.startswith("#"):
+            return False
+        # The shebang and the coding line belong to the module, not to the
+        # definition that happens to follow them
+        if lineno <= 2 and (line.startswith("#!") or "coding:" in line or "coding=" in line):
+            return False
+        return True
 
     def _add_imports2(self, pymodule, new_imports):
         source = self.tools.add_imports(pymodule, new_imports)
